@@ -225,44 +225,12 @@ impl Submessage {
       }
       SubmessageKind::INFO_REPLY => {
         let f = BitFlags::<INFOREPLY_Flags>::from_bits_truncate(sub_header.flags);
-        // The body starts with the length of the unicast locator list, and each
-        // Locator takes 24 bytes. Check the claimed length against the bytes
-        // we actually have, before the deserializer reserves memory for it.
-        // The same goes for the optional multicast locator list after it
-        // (presence octet, then length).
-        let too_many_locators = |claimed_locators: usize| {
-          io::Error::new(
-            io::ErrorKind::InvalidData,
-            format!(
-              "INFO_REPLY claims {claimed_locators} locators, but submessage body has only {} \
-               bytes.",
-              sub_content_buffer.len()
-            ),
-          )
-        };
-        let locator_size = 24;
-        let claimed_locators = u32::read_from_buffer_with_ctx(e, &sub_content_buffer)? as usize;
-        let unicast_list_end = claimed_locators
-          .saturating_mul(locator_size)
-          .saturating_add(4);
-        if unicast_list_end > sub_content_buffer.len() {
-          return Err(too_many_locators(claimed_locators));
-        }
-        if sub_content_buffer.len() >= unicast_list_end + 5
-          && sub_content_buffer[unicast_list_end] != 0
-        {
-          let claimed_locators = u32::read_from_buffer_with_ctx(
-            e,
-            &sub_content_buffer[unicast_list_end + 1..unicast_list_end + 5],
-          )? as usize;
-          if claimed_locators.saturating_mul(locator_size)
-            > sub_content_buffer.len() - (unicast_list_end + 5)
-          {
-            return Err(too_many_locators(claimed_locators));
-          }
-        }
         mk_i_subm(InterpreterSubmessage::InfoReply(
-          InfoReply::read_from_buffer_with_ctx(e, &sub_content_buffer)?,
+          InfoReply::read_from_buffer_with_flag(
+            e,
+            &sub_content_buffer,
+            f.contains(INFOREPLY_Flags::Multicast),
+          )?,
           f,
         ))
       }
